@@ -254,6 +254,22 @@ def gen_cases(rec, rng, tier):
         yield {'kind': 'tm', 'cls': 'random_tm', 'ref': txg.tm(rng), 'lseed': rng.randrange(10 ** 9)}
     for (cls, R) in fag.hostile_nfas(rng):
         yield {'kind': 'nfa', 'cls': 'nfa_' + cls, 'ref': R, 'eps': rng.choice(['_', 'ε']), 'lseed': rng.randrange(10 ** 9)}
+    # a declared epsilon symbol of several characters (symbols are \\w+ words in the NFA format) whose characters are input symbols
+    for _ in range(150 if thorough else 20):
+        eps = rng.choice(['eps', 'ee', 'e1', 'EPS', 'lambda'])
+        n = rng.randint(1, 4)
+        S = rng.sample(sorted(set(eps.lower()) | set('ab')), rng.randint(1, 3))
+        Q = txg.names(rng, n)
+        T = [(p, a, q) for p in Q for a in list(S) + [None] for q in Q if rng.random() < 0.3]
+        R = fa.make(Q, S, T, rng.choice(Q), [q for q in Q if rng.random() < 0.4])
+        yield {'kind': 'nfa', 'cls': 'nfa_multi_character_epsilon', 'ref': R, 'eps': eps, 'lseed': rng.randrange(10 ** 9)}
+    for _ in range(40 if thorough else 6):
+        yield {'kind': 'dfa', 'cls': 'many_labels_on_one_edge', 'ref': txg.dfa_wide(rng), 'lseed': rng.randrange(10 ** 9)}
+        R, eps = txg.nfa_wide(rng)
+        yield {'kind': 'nfa', 'cls': 'many_labels_on_one_edge', 'ref': R, 'eps': eps, 'lseed': rng.randrange(10 ** 9)}
+        RP, eps = txg.pda_wide(rng)
+        yield {'kind': 'pda', 'cls': 'many_labels_on_one_edge', 'ref': RP, 'eps': eps, 'lseed': rng.randrange(10 ** 9)}
+        yield {'kind': 'tm', 'cls': 'many_labels_on_one_edge', 'ref': txg.tm_wide(rng), 'lseed': rng.randrange(10 ** 9)}
     for (cls, R) in fag.hostile_dfas(rng):
         yield {'kind': 'dfa', 'cls': 'dfa_' + cls, 'ref': R, 'lseed': rng.randrange(10 ** 9)}
 
